@@ -2,7 +2,7 @@
     Only theorem statements; proofs are [exact] of lemmas from Proofs/. *)
 From Coq Require Import List ZArith NArith Bool.
 From HK Require Import Model.Queue Model.QueueMon Proofs.QueueBase Proofs.QueueInv Proofs.QueueInvStep
-  Proofs.QueueStep Proofs.QueueLease Proofs.QueueTrace.
+  Proofs.QueueStep Proofs.QueueLease Proofs.QueueTrace Proofs.QueueEpochs.
 Import ListNotations.
 Open Scope Z_scope.
 
@@ -49,6 +49,19 @@ Theorem C03_lease_ends_only_legally : forall c x r m m' l,
   \/ manage_kind_of x = Some MCancel.
 Proof. exact lease_ends_legally. Qed.
 
+(** History level: whenever two dequeues of one history return the same message id, they issued
+    different lease ids and, strictly between them (or at the second one, which then noticed the
+    expiry itself), some event ended the first lease in one of the legal ways - expiry noticed by a
+    dequeue or lease operation, ack/nack/dead-letter presenting that lease while unexpired, or an
+    operator cancel.  [ended_legally c e m l] says exactly that about event e. *)
+Theorem C03_two_dequeues_separated_by_lease_end : forall fl c xs i j ei ej m l l2,
+  let evs := model_trace fl c xs in
+  (i < j)%nat -> nth_error evs i = Some ei -> nth_error evs j = Some ej ->
+  is_dequeue (ev_op ei) = true -> In (m, l) (item_pairs (ev_res ei)) ->
+  is_dequeue (ev_op ej) = true -> In (m, l2) (item_pairs (ev_res ej)) ->
+  l <> l2 /\ exists k ek, (i < k <= j)%nat /\ nth_error evs k = Some ek /\ ended_legally c ek m l.
+Proof. exact lease_epochs_dequeues. Qed.
+
 (** Over a whole history no lease id is handed out twice. *)
 Theorem C03_lease_ids_fresh : forall fl c xs, NoDup (handed_out (model_trace fl c xs)).
 Proof. exact lease_ids_fresh. Qed.
@@ -67,3 +80,4 @@ Print Assumptions C03_dequeue_sound.
 Print Assumptions C03_never_returns_unavailable.
 Print Assumptions C03_lease_ends_only_legally.
 Print Assumptions C03_lease_ids_fresh.
+Print Assumptions C03_two_dequeues_separated_by_lease_end.
